@@ -15,12 +15,39 @@ def build(repo, findings):
     pp = u.source('brush-parser/src/pattern.rs')
     u.raw(HEADER)
     u.prelude('patterns/tables.rs')
+    u.prelude('patterns/regex_stub.rs')
     # --- regex.rs
     u.raw('pub mod regex {\nuse vstd::prelude::*;\nuse super::*;')
     u.add(rx.item(r'^pub\(crate\) enum RegexPiece ', 'RegexPiece').r1(keep_derive=()).r11())
     f = rx.item(r'^pub\(crate\) const fn regex_char_is_special\(', 'regex_char_is_special').r1().r11_pub()
     f.sig(ret='r', ensures=[C('C04,C08 regex-special-table', 'r == rx_special(c)')])
     u.add(f)
+    # compile_regex: assumed contract, flag set read from the source text on every run
+    import re as _re
+    cr = rx.item(r'^pub\(crate\) fn compile_regex\(', 'compile_regex(text anchor)')
+    m = _re.search(r'if multiline \{(?:[^{}]|\n)*?std::format!\("\(\?([a-zA-Z]*)\)\{regex_str\}"\)', cr.text)
+    if not m:
+        from vx.extract import ExtractError
+        raise ExtractError('compile_regex: text anchor lost (flags literal under `if multiline`)')
+    flags = m.group(1)
+    u.notes.append('compile_regex multiline flags read from source: (?%s)' % flags)
+    u.raw('''pub open spec fn flags_of(multiline: bool) -> Set<char> {
+    // GENERATED from brush-core/src/regex.rs compile_regex: `if multiline { format!("(?%s){regex_str}") }`
+    if multiline { Set::<char>::empty()%s } else { Set::<char>::empty() }
+}
+#[verifier::external_body]
+pub fn compile_regex(regex_str: String, case_insensitive: bool, multiline: bool) -> (r: Result<fancy_regex::Regex, error::Error>)
+    ensures r is Ok ==> r->Ok_0.text() == fix_brackets(regex_str@) && r->Ok_0.flags() == flags_of(multiline) && r->Ok_0.ci() == case_insensitive
+{ unimplemented!() }
+// C08: whatever `multiline` is, ^ and $ keep their whole-string meaning; and with multiline on, `.`/`*` span newlines
+pub proof fn lemma_whole_string_anchoring(multiline: bool)
+    ensures
+        //@ regex.rs:compile_regex:flags | C08 anchors-are-whole-string (the m flag must never be set)
+        !flags_of(multiline).contains('m'),
+        //@ regex.rs:compile_regex:flags | C08 star-spans-newlines (the s flag is set for shell patterns)
+        flags_of(true).contains('s'),
+{}
+''' % (flags, ''.join(".insert('%s')" % c for c in flags)))
     u.raw('}\n')
     # --- brush-parser pattern.rs
     f = pp.item(r'^pub const fn regex_char_needs_escaping\(', 'regex_char_needs_escaping').r1().r11()
@@ -67,6 +94,18 @@ fn pattern_to_regex_str(pattern: &str, enable_extended_globbing: bool) -> (r: Re
     g.before(r'^\s*Ok\(regex_str\)$', "proof { assert(regex_str@ =~= pre + regex_piece@ + (if strict_suffix_match { seq!['$'] } else { Seq::<char>::empty() })); }", fn_name=fn)
     u.raw('impl Pattern {')
     u.add(g)
+    # the three `mut self` builder setters are not taken by Verus ("mut self" unsupported) — NOT verified
+    tr = pt.method_anywhere('to_regex').r1().r2().r11()
+    T = 'translate_spec(pieces_text(self.pieces@), self.enable_extended_globbing)'
+    TXT = "(if strict_prefix_match { seq!['^'] } else { Seq::<char>::empty() }) + %s->Ok_0 + (if strict_suffix_match { seq!['$'] } else { Seq::<char>::empty() })" % T
+    tr.sig('to_regex', ret='res', ensures=[
+        C('C08 regex-text-and-flags', 'res is Ok ==> %s is Ok && res->Ok_0.text() == fix_brackets(%s) && res->Ok_0.flags() == regex::flags_of(self.multiline) && res->Ok_0.ci() == self.case_insensitive' % (T, TXT))])
+    u.add(tr)
+    em = pt.method_anywhere('exactly_matches').r1().r11()
+    em.sig('exactly_matches', ret='res', ensures=[
+        C('C08 exact-match-is-anchored-both-ends', '''res is Ok ==> %s is Ok
+    && match_sem(fix_brackets(seq!['^'] + %s->Ok_0 + seq!['$']), regex::flags_of(self.multiline), self.case_insensitive, value@) == Some(res->Ok_0)''' % (T, T))])
+    u.add(em)
     u.raw('}\n}\n')
     # --- expansion.rs
     u.add(ex.item(r'^enum ExpansionPiece ', 'ExpansionPiece').r1(keep_derive=()).r11())
@@ -85,7 +124,9 @@ fn pattern_to_regex_str(pattern: &str, enable_extended_globbing: bool) -> (r: Re
     u.add(im)
     u.raw(FOOTER)
     u.assume('external_body', 'pattern_to_regex_str (the peg::parser! glob-to-regex translator) is a stub: an uninterpreted function translate_spec of its input; error::Error opaque')
-    u.assume('uninterp', 'translate_spec')
+    u.assume('uninterp', 'translate_spec, match_sem, fix_brackets, Regex::text/flags/ci')
+    u.assume('external_body', 'compile_regex is a stub whose contract (text unchanged up to bracket escaping; inline flags = the literal found in the source under `if multiline`) is ASSUMED and tied to the source by a text anchor; fancy_regex::Regex::is_match is the uninterpreted match_sem')
+    u.assume('model', 'regex-dialect semantics: ^/$ anchor at text boundaries iff m is not set, `.` matches newline iff s is set (documented behaviour of regex-syntax / fancy_regex)')
     u.assume('stub', 'that the translator implements its escape_sequence / pattern_piece rules as written (macro-generated code) and fancy_regex semantics are assumed; process_double_quoted_pieces, coalesce_expansions, "$@" structure are NOT verified')
     u.expected_min_fns = 9
     return u
